@@ -449,6 +449,24 @@ func (e *Engine) absentAxioms(pi *pkgInit, st *State, limited bool) []*Term {
 var axiomRegion = map[int]int64{}
 
 func relevantAssumes(o *Obligation) []*Term {
+	if o.Cone {
+		o2 := *o
+		o2.Cone = false
+		return coneFilter(relevantAssumes(&o2), o.Goal)
+	}
+	if o.Approx {
+		// quantifier-free approximation (candidate counterexamples only): quantified assumptions dropped
+		var qf []*Term
+		for _, a := range o.Assumes {
+			if !hasQuant([]*Term{a}) {
+				qf = append(qf, a)
+			}
+		}
+		o2 := *o
+		o2.Approx = false
+		o2.Assumes = qf
+		return relevantAssumes(&o2)
+	}
 	hasAx := false
 	for _, a := range o.Assumes {
 		if _, ok := axiomRegion[a.id]; ok {
@@ -486,6 +504,74 @@ func relevantAssumes(o *Obligation) []*Term {
 			continue
 		}
 		out = append(out, a)
+	}
+	return out
+}
+
+// coneFilter: the assumptions connected to the goal through shared variables (initial memory arrays
+// excepted).  Dropping assumptions is sound; it is only a first, cheap attempt: an obligation that is
+// not proved from its cone is tried again with all assumptions (the path may be infeasible for
+// unrelated reasons).
+func coneFilter(assumes []*Term, goal *Term) []*Term {
+	varsOf := func(t *Term) map[int]bool {
+		m := map[int]bool{}
+		seen := map[int]bool{}
+		var rec func(t *Term)
+		rec = func(t *Term) {
+			if seen[t.id] {
+				return
+			}
+			seen[t.id] = true
+			if t.Op == "var" {
+				if t.Sort.IsArray() && strings.HasSuffix(t.Name, "@0") {
+					return
+				}
+				m[t.id] = true
+				return
+			}
+			for _, a := range t.Args {
+				rec(a)
+			}
+		}
+		rec(t)
+		return m
+	}
+	cone := varsOf(goal)
+	if len(cone) == 0 {
+		return assumes
+	}
+	avars := make([]map[int]bool, len(assumes))
+	for i, a := range assumes {
+		avars[i] = varsOf(a)
+	}
+	in := make([]bool, len(assumes))
+	for changed := true; changed; {
+		changed = false
+		for i := range assumes {
+			if in[i] {
+				continue
+			}
+			hit := len(avars[i]) == 0
+			for v := range avars[i] {
+				if cone[v] {
+					hit = true
+					break
+				}
+			}
+			if hit {
+				in[i] = true
+				changed = true
+				for v := range avars[i] {
+					cone[v] = true
+				}
+			}
+		}
+	}
+	var out []*Term
+	for i, a := range assumes {
+		if in[i] {
+			out = append(out, a)
+		}
 	}
 	return out
 }
